@@ -31,6 +31,19 @@ impl QfCfg {
         }
         Self { q, r, universe, label: format!("qf(q={},r={}{})", q, r, if variants { ",+highbit variants" } else { "" }) }
     }
+    /// sub-universe of a larger table: every quotient x the given remainders (+ extra fingerprints)
+    pub fn partial(q: usize, r: usize, remainders: &[u64], extra: &[u64]) -> Self {
+        let mut universe: Vec<u64> = vec![];
+        for quo in 0..(1u64 << q) {
+            for &rem in remainders {
+                universe.push((quo << r) | rem);
+            }
+        }
+        universe.extend_from_slice(extra);
+        universe.sort_unstable();
+        universe.dedup();
+        Self { q, r, universe, label: format!("qf-partial(q={},r={},remainders={:?},+{} extra)", q, r, remainders, extra.len()) }
+    }
     /// wide remainders: a handful of extreme fingerprints
     pub fn wide(q: usize, r: usize) -> Self {
         let bits = q + r;
@@ -137,6 +150,10 @@ pub struct St {
     pub inserted: u128,
     /// reached through a failed call whose raw state differed from the pre-failure state
     pub tainted: bool,
+    /// steps taken since the reference first disagreed on a property other than the one this
+    /// run decides; such states are followed for a few steps only (the product space of a buggy
+    /// implementation and a diverged reference need not be finite)
+    pub off: u8,
     /// witness stream (universe indices of successful inserts), not part of the key
     pub hist: Vec<u16>,
 }
@@ -167,7 +184,7 @@ impl QfModel {
         Ok(Self { cfg, classes, track_elements, focus: if track_elements { "C01" } else { "C13" }, strict: false, other: std::sync::atomic::AtomicU64::new(0) })
     }
     pub fn init(&self) -> St {
-        St { f: self.cfg.fresh(), set: 0, inserted: 0, tainted: false, hist: vec![] }
+        St { f: self.cfg.fresh(), set: 0, inserted: 0, tainted: false, off: 0, hist: vec![] }
     }
     /// all state invariants against the reference
     pub fn check_state_all(&self, s: &St, ctx: &str) -> Vec<Violation> {
@@ -208,7 +225,10 @@ impl Model for QfModel {
     type State = St;
     type Op = usize; // universe index to insert
 
-    fn ops(&self, _s: &St) -> Vec<usize> {
+    fn ops(&self, s: &St) -> Vec<usize> {
+        if s.off > 4 {
+            return vec![];
+        }
         (0..self.cfg.universe.len()).collect()
     }
 
@@ -219,6 +239,7 @@ impl Model for QfModel {
             k.extend_from_slice(&s.inserted.to_le_bytes());
         }
         k.push(s.tainted as u8);
+        k.push(s.off);
         k
     }
 
@@ -277,6 +298,9 @@ impl Model for QfModel {
             if self.strict {
                 return Err(vs.swap_remove(0));
             }
+        }
+        if !vs.is_empty() || s.off > 0 {
+            s.off = s.off.saturating_add(1);
         }
         Ok(kind)
     }
